@@ -72,7 +72,8 @@ Judge(R) ==
              [ok |-> def.res.ok, got |-> Len(def.res.rows), want |-> Cardinality(A),
               model |-> IF \A i \in DOMAIN cfgs : (cfgs[i].tag = "default" \/ AllOff(cfgs[i].cfg)) => Good(cfgs[i].res)
                         THEN {} ELSE A,
-              defgood |-> Good(def.res)])
+              defgood |-> Good(def.res),
+              offgood |-> \A i \in DOMAIN cfgs : AllOff(cfgs[i].cfg) => Good(cfgs[i].res)])
   /\ qagg => Verdict("C06", R, \A i \in DOMAIN cfgs : Good(cfgs[i].res),
                      [bad |-> { cfgs[i].cfg : i \in { i \in DOMAIN cfgs : ~Good(cfgs[i].res) } }])
   /\ Len(cfgs) > 2 => Verdict("C02", R, badcfg = {},
